@@ -32,6 +32,20 @@ template <typename T> struct A111 { typedef LedgerAlloc<T, ACfg<true, true, true
 template <typename T> struct ATD  { typedef LedgerAlloc<T, ACfg<false, false, false, false, std::size_t, 0, false, true> > type; static const char *name () { return "throwing-default"; } };
 template <typename T> struct AU16 { typedef LedgerAlloc<T, ACfg<false, true, true, false, unsigned short> > type; static const char *name () { return "L011/u16"; } };
 
+// ADL two-step nothrow-swappable (std::is_nothrow_swappable is C++17; the documented condition means exactly this)
+namespace adl_probe
+{
+  using std::swap;
+  template <typename T> struct nothrow_swappable : std::integral_constant<bool, noexcept (swap (std::declval<T&> (), std::declval<T&> ()))> { };
+}
+
+// is_always_equal takes part in the documented conditions only where the library can see it (C++17 feature-test macro)
+#if defined(__cpp_lib_allocator_traits_is_always_equal)
+#  define AE_VISIBLE 1
+#else
+#  define AE_VISIBLE 0
+#endif
+
 static long g_rows = 0;
 
 static void row (const char *cfg, const char *what, bool observed, bool documented)
@@ -71,10 +85,11 @@ struct Grid
 
   static constexpr bool nmc = std::is_nothrow_move_constructible<T>::value;
   static constexpr bool nma = std::is_nothrow_move_assignable<T>::value;
-  static constexpr bool nsw = std::is_nothrow_swappable<T>::value;
+  static constexpr bool nsw = adl_probe::nothrow_swappable<T>::value;
   static constexpr bool std_alloc = std::is_same<A, std::allocator<T> >::value;
-  static constexpr bool movable = std_alloc || AT::propagate_on_container_move_assignment::value || AT::is_always_equal::value;
-  static constexpr bool swappable = std_alloc || AT::propagate_on_container_swap::value || AT::is_always_equal::value;
+  static constexpr bool always_eq = AE_VISIBLE && AT::is_always_equal::value;
+  static constexpr bool movable = std_alloc || AT::propagate_on_container_move_assignment::value || always_eq;
+  static constexpr bool swappable = std_alloc || AT::propagate_on_container_swap::value || always_eq;
 
   template <unsigned M>
   static void cross (const char *cfg)
